@@ -67,7 +67,7 @@ def discipline(chk, rule='C09.R1'):
         if k == 'Barrier':
             n = _fold_local(repo, m, call, call.args[0] if call.args else None, rule)
             seats = len(repo.cls('Player', rule).enum_members())
-            chk.require(n == seats + 1 and len(call.args) == 1 and not call.keywords, 'C09.R4', where, qual, f'`{ast.unparse(call)}`',
+            chk.require(n == seats + 1 and len(call.args) == 1 and not call.keywords, 'C09.R4' if rule.startswith('C09') else rule, where, qual, f'`{ast.unparse(call)}`',
                         f'barrier parties = {seats} seat threads + the main thread',
                         f'`{ast.unparse(call)}` has {n} parties; the main thread and the {seats} seat threads ({seats + 1}) meet there')
     chk.floor(rule, 'queue-holding attributes of Server / PlayerThread', sum(1 for k in inv.attr_class.values() if k == 'Queue'), 4)
